@@ -147,7 +147,7 @@ def h_many(ctx, n, fanout, opts, payload_pad=0):
     ctx.require(cnt == len(topo(sc)), 'many cells: number of distinct cells')
 
 
-def h_two_bags(ctx, opts1, opts2, order):
+def h_two_bags(ctx, opts1, opts2, order, strict=None):
     """the same cell objects take part in several bags: a shared sub-DAG X sits at different positions in the bag of
     root A = (X, P) and in the bag of root B = (Q, R, X) - every serialisation parses back to its own root, whatever
     was serialised before (per-cell state kept between to_boc calls would show here)"""
@@ -166,7 +166,10 @@ def h_two_bags(ctx, opts1, opts2, order):
             real[id(sc)] = bl.end_cell()
         return real[id(sc)]
     ra, rb, rx = mk(a), mk(b), mk(x)
-    install_crc_stub(ctx)
+    crc = install_crc_stub(ctx)
+    if strict is not None:
+        return {'ab': [(ra, a, opts1), (rb, b, opts2), (ra, a, opts2)], 'ba': [(rb, b, opts1), (ra, a, opts2), (rb, b, opts1)],
+                'xab': [(rx, x, opts1), (ra, a, opts1), (rb, b, opts2), (rx, x, opts2)]}[order], crc
     todo = {'ab': [(ra, a, opts1), (rb, b, opts2), (ra, a, opts2)], 'ba': [(rb, b, opts1), (ra, a, opts2), (rb, b, opts1)],
             'xab': [(rx, x, opts1), (ra, a, opts1), (rb, b, opts2), (rx, x, opts2)]}[order]
     for root, sc, o in todo:
